@@ -158,20 +158,30 @@ func c09Apply(p *gen.Program, ts []c09Transform) (string, []string, string) {
 		case "continuation+blank":
 			lay[t.seq] = gen.GapText{Cont: true, After: " "}
 		case "comment":
+			// the spelling of the comment varies with the place it stands at
+			v := k + t.seq
 			lay[t.seq] = gen.GapText{Comment: fmt.Sprintf(" c%d é;|&", k)}
-			if k%4 == 3 {
+			switch {
+			case v%8 == 3:
 				lay[t.seq] = gen.GapText{Comment: gen.EmptyComment}
-			}
-			if k%4 == 1 && !t.bq {
+			case v%8 == 1 && !t.bq:
 				// a comment ends at the newline, whatever stands in front of it
 				lay[t.seq] = gen.GapText{Comment: fmt.Sprintf(" c%d ends in \\", k)}
+			case v%8 == 5:
+				// a carriage-return is a character of the text like any other
+				lay[t.seq] = gen.GapText{Comment: fmt.Sprintf(" c%d ends in cr\r", k)}
+			case v%8 == 7:
+				lay[t.seq] = gen.GapText{Comment: "\r"}
 			}
 		case "blankline":
 			lay[t.seq] = gen.GapText{Newlines: 2}
 		case "commentline":
 			lay[t.seq] = gen.GapText{Newlines: 2, NLComments: []string{fmt.Sprintf(" trailing %d", k), fmt.Sprintf(" own line %d `x` $y", k)}}
-			if k%3 == 1 {
+			if (k+t.seq)%3 == 1 {
 				lay[t.seq] = gen.GapText{Newlines: 2, NLComments: []string{fmt.Sprintf(" trailing %d \\", k), "\\"}}
+			}
+			if (k+t.seq)%3 == 2 {
+				lay[t.seq] = gen.GapText{Newlines: 2, NLComments: []string{fmt.Sprintf(" trailing %d\r", k), "\r"}}
 			}
 		case "semi":
 			semis[t.seq] = true
